@@ -1,5 +1,5 @@
 (* C04: non-trivial operands satisfy the hypotheses, and the three calls of the associativity statement return. *)
-From SE Require Import Expr.ArithAddProofs.
+From SE Require Import Expr.ArithAddProofs Expr.ArithMulUnique.
 Local Open Scope Z_scope.
 Definition vx := ESym [120%N]. Definition vy := ESym [121%N].
 Definition t1 := EMul (NRat 3 2) [(vx, e_int 2); (vy, e_half)].
@@ -14,5 +14,22 @@ Example C04_calls_return :
                     | Ok r1, Ok r2 => expr_eqb r1 r2 && expr_eqb r1 t2
                     | _, _ => false end
   | _, _ => false
+  end = true.
+Proof. vm_compute. reflexivity. Qed.
+(* mul: x**2 * (y**(1/2) * (3/2 * x**-2 * sin(x))): sorted operands, both groupings return, results eq, not trivial *)
+Definition ma := EPow vx (e_int 2).
+Definition mb := EPow vy e_half.
+Example C04_mul_operands_ok :
+  match e_mul 5 (ENum (NRat 3 2)) (EPow vx (e_int (-2))) with
+  | Ok m0 => match e_mul 5 m0 (EF1 TC_Sin vx) with
+    | Ok mc =>
+      mul_operand_sorted ma && mul_operand_sorted mb && mul_operand_sorted mc &&
+      match e_mul 5 ma mb, e_mul 5 mb mc with
+      | Ok ab, Ok bc => match e_mul 5 ab mc, e_mul 5 ma bc with
+                        | Ok r1, Ok r2 => expr_eqb r1 r2 && negb (expr_eqb r1 mc) && mul_operand_sorted r1
+                        | _, _ => false end
+      | _, _ => false end
+    | _ => false end
+  | _ => false
   end = true.
 Proof. vm_compute. reflexivity. Qed.
